@@ -41,21 +41,24 @@ Definition send12_chacha_t (rt : Z) (key iv version : bytes) (st : sstate) (cont
 Definition send12_chacha := send12_chacha_t 23.
 
 (* RC4: the key stream continues from record to record *)
-Definition send_rc4 (key version : bytes) (st : sstate) (content mac : bytes) : result (sstate * tls_record) :=
+Definition send_rc4_t (rt : Z) (key version : bytes) (st : sstate) (content mac : bytes) : result (sstate * tls_record) :=
   do ct <- c_rc4 C key (ss_off st) (content ++ mac);
-  Ok ({| ss_seq := ss_seq st + 1; ss_last := ss_last st; ss_off := ss_off st + len ct |}, mk_record 23 version ct).
+  Ok ({| ss_seq := ss_seq st + 1; ss_last := ss_last st; ss_off := ss_off st + len ct |}, mk_record rt version ct).
+Definition send_rc4 := send_rc4_t 23.
 
 Definition cbc_padding (p : Z) : bytes := repeat p (Z.to_nat (p + 1)).
 
 (* CBC with an explicit IV per record (TLS 1.1, 1.2), MAC-then-encrypt or encrypt-then-MAC (RFC 7366) *)
-Definition send_cbc_explicit (a : alg) (key version : bytes) (etm : bool) (st : sstate) (iv content mac : bytes) (p : Z) : result (sstate * tls_record) :=
+Definition send_cbc_explicit_t (rt : Z) (a : alg) (key version : bytes) (etm : bool) (st : sstate) (iv content mac : bytes) (p : Z) : result (sstate * tls_record) :=
   do ct <- c_cbc_enc C a key iv (if etm then content ++ cbc_padding p else content ++ mac ++ cbc_padding p);
-  Ok ({| ss_seq := ss_seq st + 1; ss_last := ss_last st; ss_off := ss_off st |}, mk_record 23 version (iv ++ ct ++ (if etm then mac else []))).
+  Ok ({| ss_seq := ss_seq st + 1; ss_last := ss_last st; ss_off := ss_off st |}, mk_record rt version (iv ++ ct ++ (if etm then mac else []))).
+Definition send_cbc_explicit := send_cbc_explicit_t 23.
 
 (* CBC with the IV chained from the previous record's last ciphertext block (SSL 3.0, TLS 1.0) *)
-Definition send_cbc_chained (a : alg) (key version : bytes) (etm : bool) (bs : Z) (st : sstate) (content mac : bytes) (p : Z) : result (sstate * tls_record) :=
+Definition send_cbc_chained_t (rt : Z) (a : alg) (key version : bytes) (etm : bool) (bs : Z) (st : sstate) (content mac : bytes) (p : Z) : result (sstate * tls_record) :=
   do ct <- c_cbc_enc C a key (ss_last st) (if etm then content ++ cbc_padding p else content ++ mac ++ cbc_padding p);
-  Ok ({| ss_seq := ss_seq st + 1; ss_last := slice_last ct bs; ss_off := ss_off st |}, mk_record 23 version (ct ++ (if etm then mac else []))).
+  Ok ({| ss_seq := ss_seq st + 1; ss_last := slice_last ct bs; ss_off := ss_off st |}, mk_record rt version (ct ++ (if etm then mac else []))).
+Definition send_cbc_chained := send_cbc_chained_t 23.
 End Send.
 
 (* the laws of the primitives the theorems assume: decryption inverts encryption; sizes *)
